@@ -67,11 +67,22 @@ func ParseFloat(b []byte) (float64, int) {
 	if i < len(b) && (b[i] == 'e' || b[i] == 'E') {
 		startExp := i
 		i++
-		if e, expLen := ParseInt(b[i:]); 0 < expLen {
-			expExp = e
-			i += expLen
-		} else {
-			i = startExp
+		expNeg := false
+		if i < len(b) && (b[i] == '+' || b[i] == '-') {
+			expNeg = b[i] == '-'
+			i++
+		}
+		startDigits := i
+		for ; i < len(b) && '0' <= b[i] && b[i] <= '9'; i++ {
+			// saturate instead of overflowing: beyond 1e17 the result is zero or infinite anyway
+			if expExp < 1e17 {
+				expExp = expExp*10 + int64(b[i]-'0')
+			}
+		}
+		if i == startDigits {
+			i = startExp // no digits, the e is not part of the number
+		} else if expNeg {
+			expExp = -expExp
 		}
 	}
 	exp := expExp - mantExp
